@@ -48,11 +48,11 @@ STD_ENUMS = {
     'core::task::poll::Poll': {'0': 'Ready', '1': 'Pending'},
 }
 
-Store = namedtuple('Store', 'S P T V len0 own resched sched pend S0 pan pre acq0 act pushed rel')
+Store = namedtuple('Store', 'S P T V len0 own resched sched pend S0 pan pre acq0 act pushed rel susp')
 
 
 def mk_store(T='N', P=None):
-    return Store(S=None, P=P, T=T, V=(), len0='?', own='?', resched=0, sched=0, pend=0, S0=None, pan=0, pre=None, acq0=None, act=0, pushed=0, rel=None)
+    return Store(S=None, P=P, T=T, V=(), len0='?', own='?', resched=0, sched=0, pend=0, S0=None, pan=0, pre=None, acq0=None, act=0, pushed=0, rel=None, susp=0)
 
 
 def vget(st, l):
@@ -394,6 +394,11 @@ class Proto:
                 continue
             summ = self.summ.get(f.name) or ()
             if not any(T in ('H', 'R') for (T, P, ret) in summ) or f.name in self.requires_held:
+                continue
+            # only a closure that itself writes the state (after helper inlining) is a hand-over; a closure that merely calls a protocol
+            # function whose summary leaks the token is that function's defect and must stay decidable
+            own = self.events.get(('write', self._evn(f), ''), set())
+            if not any(role in ('acquire', 'owner') and a != b for (a, b, role) in own):
                 continue
             parent = self.facts.fn(f.parent)
             if not parent:
@@ -851,6 +856,8 @@ class Proto:
                     x = x._replace(resched=0 if x.len0 == 'Y' else 1)
                 if role == 'nonowner' and s2 == 'Pending' and s != s2:
                     x = x._replace(sched=1)
+                if role == 'owner' and s2 in PARKED and s2 != s and record:
+                    self.events[('park_write', self._evn(fn), '')].add((s, s2, st.susp))
                 if role == 'owner' and s2 in UNOWNED and st.pend:
                     if record:
                         self.viol.append(('TOK-requeue', self._evn(fn), 'release to %s while a job that returned Pending has not been put back' % s2, fn.loc(bb, i)))
@@ -958,7 +965,7 @@ class Proto:
                     nm = None if val == 'otherwise' else self._adt_variant_by_discr(ty, val)
                     x = st
                     if nm == 'Pending' or (val == 'otherwise' and 'Pending' not in [self._adt_variant_by_discr(ty, y) for y in listed]):
-                        x = x._replace(pend=1)
+                        x = x._replace(pend=1, susp=1)
                         x = vset(x, l, ('enum', 'Pending'))
                     elif nm == 'Ready':
                         x = vset(x, l, ('enum', 'Ready'))
@@ -1088,7 +1095,7 @@ class Proto:
                 self.requires_held.add(fn.name)
             x = st
             if ex == 'job.run':
-                x = x._replace(pend=0)
+                x = x._replace(pend=0, susp=0)
                 return done(x, ('runres',))
             return done(x, None)
 
